@@ -1,8 +1,12 @@
 #!/bin/bash
-# round.sh <round> <letterA> <letterB> <ID>...: store the agent deliverables of /tmp/seed<round>-<ID>-out and confirm + check them
+# round.sh <round> <letterA> <letterB> <ID>...: store the agent deliverables of /tmp/seed<round>-<ID>-out and confirm + check
+# them (three properties at a time); RESULT lines go to logs/round<round>.out
 r=$1; a=$2; b=$3; shift 3
 cd "$(dirname "$0")/.."
-for id in "$@"; do
+one() {
+  id=$1
   tools/storeseed.sh $id $r /tmp/seed$r-$id-out $a $b
   for y in $a $b; do [ -d seeded/$id-$y ] && tools/seedcheck.sh seeded/$id-$y $id 2>&1 | tail -1 | cut -c1-330 | tee -a logs/round$r.out; done
-done
+}
+export -f one; export r a b
+printf '%s\n' "$@" | xargs -P 3 -I{} bash -c 'one {}'
